@@ -7,7 +7,7 @@ use crate::rule;
 use rotala::exchange::uist_v1::{Order, OrderType, Trade, TradeType, VerifSnapshot};
 use rotala::input::penelope::PenelopeQuoteByDate;
 use serde::{Deserialize, Serialize};
-use std::collections::BTreeMap;
+use std::collections::{BTreeMap, HashMap, HashSet};
 
 #[derive(Clone, Copy, Debug, PartialEq, Eq, Serialize, Deserialize)]
 pub enum Typ {
@@ -381,11 +381,13 @@ impl ExTracker {
         let n_adm = admitted.len();
         let tail_start = post.book.len().saturating_sub(n_adm);
         let pre_ids: Vec<Option<u64>> = pre.book.iter().map(|o| o.order_id).collect();
+        let pre_id_set: HashSet<Option<u64>> = pre_ids.iter().copied().collect();
         let tail_ok = post.book.len() >= n_adm
             && post.book[tail_start..].iter().zip(admitted.iter()).all(|(b, a)| order_eq_fields(b, a))
-            && post.book[tail_start..].iter().all(|b| !pre_ids.contains(&b.order_id));
+            && post.book[tail_start..].iter().all(|b| !pre_id_set.contains(&b.order_id));
         let survivors: &[Order] = if tail_ok { &post.book[..tail_start] } else { &post.book[..] };
-        let gone: Vec<&Order> = pre.book.iter().filter(|o| !survivors.iter().any(|s| s.order_id == o.order_id)).collect();
+        let survivor_ids: HashSet<Option<u64>> = survivors.iter().map(|s| s.order_id).collect();
+        let gone: Vec<&Order> = pre.book.iter().filter(|o| !survivor_ids.contains(&o.order_id)).collect();
         let gone_ids: Vec<u64> = gone.iter().filter_map(|o| o.order_id).collect();
 
         // ---- C02: the fills are exactly the expected ones (as a multiset) ------------------------
@@ -536,7 +538,7 @@ impl ExTracker {
 
         // ---- per fill: C01 (dated with and priced from this tick's quotes), C07 ---------------------
         for t in trades {
-            let sig = pre.book.iter().find(|o| body_key_order(o) == self.body_key_trade(t)).map_or("tick", |o| Typ::from_sut(o.order_type).name());
+            let sig = "fill";
             match quotes.get(&t.symbol) {
                 None => ctx.fail("C01", "fill-without-quote", sig, format!("fill {} but the tick carried no quote for {}", fmt_trade(t), t.symbol)),
                 Some(q) => {
@@ -595,7 +597,12 @@ impl ExTracker {
         }
         let mut seen_buy = false;
         let mut prev_id: Option<u64> = None;
-        let mut unmatched: Vec<usize> = std::mem::take(&mut self.buffered);
+        let buffered: Vec<usize> = std::mem::take(&mut self.buffered);
+        let mut by_key: HashMap<OrderKey, Vec<usize>> = HashMap::new();
+        for i in buffered.iter().rev() {
+            by_key.entry(order_key(&self.recs[*i].spec.to_sut())).or_default().push(*i);
+        }
+        let mut matched: HashSet<usize> = HashSet::new();
         for o in admitted {
             let is_buy = Typ::from_sut(o.order_type).is_buy();
             if is_buy {
@@ -619,8 +626,13 @@ impl ExTracker {
                     }
                     prev_id = Some(id);
                     // match with one submitted order of this batch, field by field
-                    if let Some(p) = unmatched.iter().position(|i| self.spec_matches(&self.recs[*i].spec, o)) {
-                        let i = unmatched.remove(p);
+                    let mut hit: Option<usize> = by_key.get_mut(&order_key(o)).and_then(|v| v.pop());
+                    if hit.is_none() && self.json {
+                        // floats crossed JSON text: fall back to a tolerant scan
+                        hit = buffered.iter().copied().find(|i| !matched.contains(i) && self.spec_matches(&self.recs[*i].spec, o));
+                    }
+                    if let Some(i) = hit {
+                        matched.insert(i);
                         self.recs[i].status = St::Resting;
                         self.recs[i].id = Some(id);
                         self.by_id.entry(id).or_insert(i);
@@ -631,9 +643,11 @@ impl ExTracker {
                 }
             }
         }
-        for i in unmatched {
-            // never reported admitted: lost (already flagged by admitted-set)
-            self.recs[i].status = St::Cancelled;
+        for i in buffered {
+            if !matched.contains(&i) {
+                // never reported admitted: lost (already flagged by admitted-set)
+                self.recs[i].status = St::Cancelled;
+            }
         }
 
         rule!(
